@@ -188,8 +188,9 @@ def build(read):
                 start == byte_off(self.scanner.text(), old(self).scanner.pos()),
                 forall|i: int| old(self).scanner.pos() <= i < self.scanner.pos() ==> int_char(#[trigger] self.scanner.text()[i]), // [C09_C03:an_integer_literal_is_the_maximal_run_of_digits_and_underscore_separators]
             ensures
-                self.scanner.pos() < self.scanner.text().len() ==> !int_char(self.scanner.text()[self.scanner.pos()]), // [C09_C03:an_integer_literal_is_the_maximal_run_of_digits_and_underscore_separators]"""}}
-    f = extract.annotate_fn(hdr + body, spec=SPEC, attrs="#[verifier::exec_allows_no_decreases_clause]\n#[verifier::loop_isolation(false)]\n#[verifier::allow_complex_invariants]", loops=loops)
+                self.scanner.pos() < self.scanner.text().len() ==> !int_char(self.scanner.text()[self.scanner.pos()]), // [C09_C03:an_integer_literal_is_the_maximal_run_of_digits_and_underscore_separators]
+            decreases self.scanner.text().len() - self.scanner.pos(), // [C03:scanning_an_integer_literal_terminates]"""}}
+    f = extract.annotate_fn(hdr + body, spec=SPEC, attrs="#[verifier::loop_isolation(false)]\n#[verifier::allow_complex_invariants]", loops=loops)
     f = extract.rewrite_regex_once(f, r"(let end = self\.scanner\.index;)",
                                    r"\1\n        proof { let t = self.scanner.text(); lemma_idx_of(t, old(self).scanner.pos()); lemma_idx_of(t, self.scanner.pos()); "
                                    r"if old(self).scanner.pos() < self.scanner.pos() { lemma_byte_off_strict(t, old(self).scanner.pos(), self.scanner.pos()); } "
